@@ -149,8 +149,14 @@ Proof.
     + now rewrite (parse_table_length _ _ _ _ _ E).
 Qed.
 
+Lemma tables_ok_max c o : tables_ok c o = true -> tables_max_ok c o = true.
+Proof.
+  unfold tables_ok, tables_max_ok. intros H. apply forallb_forall. intros t Ht.
+  eapply forallb_forall in H; [|exact Ht]. cbn beta zeta in H. lia.
+Qed.
+
 Lemma compile_with_limits ff pf c tbl prog o : compile_with ff pf c tbl prog = Ok o ->
-  segments_ok o = true /\ (o_advanced o = true -> tables_ok c o = true).
+  segments_ok o = true /\ (o_advanced o = true -> tables_ok c o = true) /\ tables_max_ok c o = true.
 Proof.
   unfold compile_with. fold (root_of prog). set (prog1 := root_of prog).
   destruct (negb (c_nchan c =? c_cpp c)); [discriminate|].
@@ -158,27 +164,35 @@ Proof.
   destruct (negb (c_nchan c =? 2)); [discriminate|].
   destruct (negb (match c_mode c with Some m => m | None => depth prog1 >? 1 end)).
   - destruct (negb (depth prog1 =? 1)); [discriminate|]. destruct (negb (balanced prog1)); [discriminate|].
-    unfold bind. destruct (parse_single tbl prog1) as [p|]; [|discriminate]. intros H.
-    destruct (calc_segments_limits _ _ _ _ _ H) as (S1 & _ & _ & S4). split; [exact S1|]. rewrite S4. discriminate.
+    destruct (l_len prog1 >? c_max c) eqn:Emax; [discriminate|].
+    unfold bind. destruct (parse_single tbl prog1) as [p|] eqn:Ep; [|discriminate]. intros H.
+    destruct (calc_segments_limits _ _ _ _ _ H) as (S1 & _ & S3 & S4). split; [exact S1|].
+    split; [rewrite S4; discriminate|].
+    unfold parse_single, bind in Ep. destruct (parse_table tbl (l_ch prog1) []) as [[es known]|] eqn:Et; [|discriminate].
+    injection Ep as <-. cbn [p_seqs map] in S3. apply parse_table_length in Et.
+    unfold tables_max_ok. destruct (o_seqs o) as [|t [|t2 ts]]; cbn [map] in S3; try discriminate.
+    injection S3 as S3. cbn [forallb]. rewrite S3, Et. unfold l_len in Emax. lia.
   - destruct (negb (depth prog1 >? 1)); [discriminate|]. destruct (negb (l_rep prog1 =? 1)); [discriminate|].
     unfold bind. destruct (fab ff 2 [] (l_ch prog1)) as [ch1|]; [|discriminate].
     destruct (prep pf (c_min c) (c_max c) [] ch1) as [ch2|]; [|discriminate].
     destruct (negb (forallb _ ch2)) eqn:Ea; [discriminate|]. apply negb_false_iff in Ea.
     destruct (parse_aseq tbl (set_ch prog1 ch2)) as [p|] eqn:Ep; [|discriminate]. intros H.
-    destruct (calc_segments_limits _ _ _ _ _ H) as (S1 & _ & S3 & _). split; [exact S1|]. intros _.
-    unfold parse_aseq in Ep. replace (l_ch (set_ch prog1 ch2)) with ch2 in Ep by (destruct prog1; reflexivity).
-    pose (P := fun n : nat => (c_min c <=? Z.of_nat n) && (Z.of_nat n <=? c_max c) = true).
-    assert (HP : Forall (fun es => P (length es)) (p_seqs p)).
-    { eapply parse_aseq_loop_lengths; [constructor| |exact Ep].
-      apply Forall_forall. intros t Ht. eapply forallb_forall in Ea; [|exact Ht]. unfold P, l_len in *. lia. }
-    unfold tables_ok. apply forallb_forall. intros t Ht.
-    assert (HL : In (length t) (map (@length _) (o_seqs o))) by (apply in_map; exact Ht).
-    rewrite S3 in HL. apply in_map_iff in HL as (es & Hes & Hin). eapply Forall_forall in HP; [|exact Hin].
-    unfold P in HP. rewrite Hes in HP. exact HP.
+    destruct (calc_segments_limits _ _ _ _ _ H) as (S1 & _ & S3 & _). split; [exact S1|].
+    assert (T : tables_ok c o = true).
+    { unfold parse_aseq in Ep. replace (l_ch (set_ch prog1 ch2)) with ch2 in Ep by (destruct prog1; reflexivity).
+      pose (P := fun n : nat => (c_min c <=? Z.of_nat n) && (Z.of_nat n <=? c_max c) = true).
+      assert (HP : Forall (fun es => P (length es)) (p_seqs p)).
+      { eapply parse_aseq_loop_lengths; [constructor| |exact Ep].
+        apply Forall_forall. intros t Ht. eapply forallb_forall in Ea; [|exact Ht]. unfold P, l_len in *. lia. }
+      unfold tables_ok. apply forallb_forall. intros t Ht.
+      assert (HL : In (length t) (map (@length _) (o_seqs o))) by (apply in_map; exact Ht).
+      rewrite S3 in HL. apply in_map_iff in HL as (es & Hes & Hin). eapply Forall_forall in HP; [|exact Hin].
+      unfold P in HP. rewrite Hes in HP. exact HP. }
+    split; [intros _; exact T|now apply tables_ok_max].
 Qed.
 
 Lemma compile_limits c tbl prog o : compile c tbl prog = Ok o ->
-  segments_ok o = true /\ (o_advanced o = true -> tables_ok c o = true).
+  segments_ok o = true /\ (o_advanced o = true -> tables_ok c o = true) /\ tables_max_ok c o = true.
 Proof. apply compile_with_limits. Qed.
 
 (* ---------------------------------------------------------------------------------------------------------- *)
